@@ -31,6 +31,8 @@ const (
 	c02Sweep          // every byte offset of corpus file i replaced by value class j
 	c02Multi          // seeded: source file (corpus / Encoder-written / foreign-written) + 1..4 faults
 	c02Intact         // seeded: files from the Encoder and the foreign writer read without faults
+	c02Short          // exhaustive: a valid header followed by every instruction stream of up to 2 (quick) / 3 (thorough) bytes
+	c02Random         // seeded: a valid or nearly valid header followed by random bytes
 	c02Literal = 255  // the rest of the tape is the stored bytes themselves (replay / shrinking form)
 )
 
@@ -498,22 +500,23 @@ func sweepValue(b byte, j int) byte {
 	}
 }
 
-func c02Counts(ctx *Ctx) (nTrunc, nSweep, nMulti, nIntact int) {
+func c02Counts(ctx *Ctx) (nTrunc, nSweep, nMulti, nIntact, nShort, nRandom int) {
 	n := len(ctx.Corpus)
 	if ctx.Tier == "thorough" {
-		// every offset x all 255 other values, split into 15 slices of 17 values per file
-		return n, n * 15, 6000000, 200000
+		// every offset x all 255 other values, split into 15 slices of 17 values per file;
+		// short streams: one case per (header, first byte, second byte)
+		return n, n * 15, 6000000, 200000, len(c02Headers) * 256 * 256, 1000000
 	}
-	return n, n, 24000, 4000
+	return n, n, 24000, 4000, len(c02Headers) * 256, 20000
 }
 
 func c02Cases(ctx *Ctx) int {
-	a, b, c, d := c02Counts(ctx)
-	return a + b + c + d
+	a, b, c, d, e, f := c02Counts(ctx)
+	return a + b + c + d + e + f
 }
 
 func c02Prefix(ctx *Ctx, i int) []uint64 {
-	a, b, c, _ := c02Counts(ctx)
+	a, b, c, d, e, _ := c02Counts(ctx)
 	n := len(ctx.Corpus)
 	switch {
 	case i < a:
@@ -523,9 +526,22 @@ func c02Prefix(ctx *Ctx, i int) []uint64 {
 		return []uint64{c02Sweep, uint64(j % n), uint64(j / n)}
 	case i < a+b+c:
 		return []uint64{c02Multi}
-	default:
+	case i < a+b+c+d:
 		return []uint64{c02Intact}
+	case i < a+b+c+d+e:
+		return []uint64{c02Short, uint64(i - a - b - c - d)}
+	default:
+		return []uint64{c02Random}
 	}
+}
+
+// c02Headers are the valid headers the exhaustive short-stream mode puts in
+// front of every instruction stream: no metadata; and a viewBox chunk plus a
+// one-entry 4-byte palette (so that palette references resolve to something
+// that is neither black nor premultiplied-valid: a gradient-looking entry).
+var c02Headers = [][]byte{
+	{0x89, 'I', 'V', 'G', 0x00},
+	{0x89, 'I', 'V', 'G', 0x04, 0x0a, 0x00, 0x50, 0x50, 0xb0, 0xb0, 0x0c, 0x02, 0xc0, 0x02, 0x8a, 0x8a, 0x00},
 }
 
 func encoderFile(t *tape.Tape) ([]byte, []world.Op) {
@@ -633,6 +649,66 @@ func c02Run(ctx *Ctx, t *tape.Tape) *report.Violation {
 			}
 		}
 		return nil
+
+	case c02Short:
+		// A valid header, then EVERY instruction stream of the tier's length:
+		// the case index fixes header and leading byte(s), the loop runs over
+		// the last byte. In styling mode this reaches every opcode with every
+		// first operand byte; "c0 80 80" prefixes (StartPath at the origin) put
+		// the same enumeration into drawing mode.
+		idx := t.Intn(1 << 30)
+		cfg := c02Cfg{rect: 0}
+		var fixed []byte
+		if ctx.Tier == "thorough" {
+			fixed = []byte{byte(idx >> 8), byte(idx)}
+			idx >>= 16
+		} else {
+			fixed = []byte{byte(idx)}
+			idx >>= 8
+		}
+		hdr := c02Headers[idx%len(c02Headers)]
+		for _, pre := range [][]byte{nil, {0xc0, 0x80, 0x80}} {
+			for last := 0; last < 256; last++ {
+				s := append(append(append(append([]byte(nil), hdr...), pre...), fixed...), byte(last))
+				if v := c02Check(ctx, s, cfg, nil, true, []string{"exhaustive short instruction stream after a valid header"}); v != nil {
+					return v
+				}
+				if st != nil {
+					st.Add("evaluations", 1)
+					st.Add("short_streams", 1)
+					st.Distinct(fnvAdd(fnv(s), 4))
+				}
+			}
+		}
+		return nil
+
+	case c02Random:
+		hdr := c02Headers[t.Intn(len(c02Headers))]
+		s := append([]byte(nil), hdr...)
+		if t.Chance(1, 6) {
+			fw := &world.Foreign{}
+			fw.Header(t)
+			s = append([]byte(nil), fw.B...)
+		}
+		n := t.Range(0, 64)
+		r := t.Sub()
+		drawBias := t.Chance(1, 2)
+		if drawBias {
+			s = append(s, 0xc0, 0x80, 0x80)
+		}
+		for i := 0; i < n; i++ {
+			b := byte(r.Next())
+			if drawBias && r.Next()%4 == 0 {
+				b &= 0xdf // keep more bytes below 0xe0: drawing opcodes with operands
+			}
+			s = append(s, b)
+		}
+		if st != nil {
+			st.Add("evaluations", 1)
+			st.Add("random_streams", 1)
+			st.Distinct(fnvAdd(fnv(s), 5))
+		}
+		return c02Check(ctx, s, c02Cfg{rect: t.Intn(len(c02Rects)), withPalette: t.Chance(1, 4)}, nil, true, []string{"random bytes after a header"})
 
 	case c02Multi, c02Intact:
 		var s []byte
@@ -743,15 +819,17 @@ func init() {
 		NeedsCorpus:     true,
 		Describe: func(tier string, s *report.Stats, cases int) Evidence {
 			ev := Evidence{
-				Rule: "Cases are stored byte strings after storage faults: (a) every truncation point of every corpus file, all five readers on each; (b) every byte offset of every corpus file with the byte replaced (quick: 8 value classes, thorough: all 255 other values); (c) seeded runs of 1-4 faults (truncate, bit flip, byte set, zero/drop/duplicate range, splice from another file, framing natural replaced, operand replaced by NaN/Inf/huge/denormal, garbage tail) over corpus files, files written by the real Encoder from generated programs and files written by the harness's own foreign FFV0 writer, with offsets biased to opcodes, operands, repeat groups, arc operands and framing naturals; (d) intact generated files. distinct_nontrivial = set bits of a hash bitmap (lower bound on distinct inputs) over faulted inputs that differ from their original and, for sweeps, lie past the 4 magic bytes / for multi-fault runs still carry valid magic+metadata by the spec-derived validator, so that the fault is met by the instruction decoder and not by the magic check.",
+				Rule: "Cases are stored byte strings after storage faults: (a) every truncation point of every corpus file, all five readers on each; (b) every byte offset of every corpus file with the byte replaced (quick: 8 value classes, thorough: all 255 other values); (c) seeded runs of 1-4 faults (truncate, bit flip, byte set, zero/drop/duplicate range, splice from another file, framing natural replaced, operand replaced by NaN/Inf/huge/denormal, garbage tail) over corpus files, files written by the real Encoder from generated programs and files written by the harness's own foreign FFV0 writer, with offsets biased to opcodes, operands, repeat groups, arc operands and framing naturals; (d) intact generated files; (e) exhaustive short streams: two valid headers (no metadata; viewBox + 4-byte palette) followed by every instruction stream of 2 bytes (quick) / 3 bytes (thorough), in styling mode and, behind a StartPath, in drawing mode; (f) random bytes after a valid or foreign-written header. distinct_nontrivial = set bits of a hash bitmap (lower bound on distinct inputs) over faulted inputs that differ from their original and, for sweeps, lie past the 4 magic bytes / for multi-fault runs still carry valid magic+metadata by the spec-derived validator, so that the fault is met by the instruction decoder and not by the magic check.",
 				Extra: map[string]interface{}{
-					"fault_kinds_fired":   s.SortedCounters("fault_"),
-					"outcomes":            s.SortedCounters("outcome_"),
-					"sources":             map[string]int64{"corpus": s.Counters["source_0"], "real_encoder": s.Counters["source_1"], "foreign_writer": s.Counters["source_2"]},
-					"files_read":          s.Counters["files_read"],
-					"prefix_comparisons":  s.Counters["prefix_checks"],
-					"calls_delivered":     s.Counters["calls_delivered"],
-					"raster_ops_recorded": s.Counters["raster_ops"],
+					"fault_kinds_fired":        s.SortedCounters("fault_"),
+					"outcomes":                 s.SortedCounters("outcome_"),
+					"sources":                  map[string]int64{"corpus": s.Counters["source_0"], "real_encoder": s.Counters["source_1"], "foreign_writer": s.Counters["source_2"]},
+					"files_read":               s.Counters["files_read"],
+					"exhaustive_short_streams": s.Counters["short_streams"],
+					"random_streams":           s.Counters["random_streams"],
+					"prefix_comparisons":       s.Counters["prefix_checks"],
+					"calls_delivered":          s.Counters["calls_delivered"],
+					"raster_ops_recorded":      s.Counters["raster_ops"],
 					"reach_probes": map[string]int64{
 						"decode error after >=1 delivered call beyond Reset": s.Counters["probe_error_after_delivered_call"],
 						"multi-fault input still past the header":            s.Counters["multi_past_header"],
@@ -773,7 +851,9 @@ func init() {
 				},
 			}
 			if tier == "thorough" {
-				ev.Extra["exhaustive_subspace"] = "single-byte replacement: every offset of every corpus file x all 255 other values, and every truncation point, are enumerated completely; the multi-fault space is sampled"
+				ev.Extra["exhaustive_subspace"] = "single-byte replacement: every offset of every corpus file x all 255 other values, every truncation point, and every 3-byte instruction stream after two valid headers (styling and drawing mode) are enumerated completely; the multi-fault and random spaces are sampled"
+			} else {
+				ev.Extra["exhaustive_subspace"] = "every truncation point of every corpus file and every 2-byte instruction stream after two valid headers are enumerated completely; single-byte replacement covers 8 value classes per offset; the multi-fault and random spaces are sampled"
 			}
 			return ev
 		},
